@@ -273,7 +273,14 @@ def r6_batch_slots(ctx):
     c12.r2_slot_index(ctx)
 
 
-RULES = [r1_id_and_wire_agree, r2_key_discipline, r3_insert_before_send, r4_completion_consumes, r5_allocator, r6_batch_slots, r7_ids_not_ordered]
+
+def rarr_every_element(ctx):
+    """an array message is processed element by element to the end"""
+    from .common import array_elements_all_processed
+    array_elements_all_processed(ctx.F, ctx.R, "C03.ARR")
+
+
+RULES = [r1_id_and_wire_agree, r2_key_discipline, r3_insert_before_send, r4_completion_consumes, r5_allocator, r6_batch_slots, r7_ids_not_ordered, rarr_every_element]
 
 LEVEL_TEXT = (
     "Structural necessary conditions of response demultiplexing decided from the type-checked program: the recorded id "
